@@ -629,6 +629,8 @@ impl TransactionBuilder {
     {
         let mut relevant_indices = available_indices.clone();
         relevant_indices.retain(|i| by(&available_inputs[*i].output.amount).is_some());
+        #[cfg(feature = "verif-hooks")]
+        crate::verif_hooks::probe("lf_phase", relevant_indices.len() as u64);
         // ordered in ascending order by predicate {by}
         relevant_indices
             .sort_by_key(|i| by(&available_inputs[*i].output.amount).expect("filtered above"));
@@ -691,6 +693,8 @@ impl TransactionBuilder {
             .collect::<Vec<TransactionOutput>>();
         outputs.sort_by_key(|output| by(&output.amount).expect("filtered above"));
         let mut available_coins = by(input_total).unwrap_or(BigNum::zero());
+        #[cfg(feature = "verif-hooks")]
+        crate::verif_hooks::probe("ri_phase", relevant_indices.len() as u64);
         for output in outputs.iter().rev() {
             // TODO: how should we adapt this to inputs being associated when running for other assets?
             // if we do these two phases for each asset and don't take into account the other runs for other assets
